@@ -134,7 +134,7 @@ pub fn run(ctx: &Ctx) -> i32 {
     let known = load_known("C20");
     let fails = run_tapes_opts(ctx, "value_cuts", ctx.tier.pick(3_000, 60_000), 4000, 300, &stats, value_case);
     outcome.absorb(&known, fails);
-    let fails = run_tapes_opts(ctx, "degree_cuts", ctx.tier.pick(4_000, 80_000), 4000, 300, &stats, degree_case);
+    let fails = run_tapes_opts(ctx, "degree_cuts", ctx.tier.pick(12_000, 120_000), 4000, 300, &stats, degree_case);
     outcome.absorb(&known, fails);
     finish(
         ctx,
